@@ -464,17 +464,6 @@ def run_case(c):
         ne = call(lambda: a != b)
         if ne != ("ok", not ab[1]):
             py_fail = f"a != number gave {ne}, a.is_equal(number) gave {ab}"
-    # classification of the known defects (distinguishing feature keys)
-    isview = lambda x: type(x).__name__ in ('ObjectiveView', 'ConstraintView')
-    if (isinstance(a, dimod.ConstrainedQuadraticModel) != isinstance(b, dimod.ConstrainedQuadraticModel)):
-        # ConstrainedQuadraticModel.is_equal / is_almost_equal(<not a CQM>) raises AttributeError
-        feats = {"cqm_is_equal_non_cqm": True}
-    elif isinstance(a, dimod.BinaryQuadraticModel) and (
-            isview(b) or (isinstance(b, dimod.BinaryQuadraticModel) and a.vartype is not b.vartype
-                          and not a.num_variables and not b.num_variables)):
-        # BinaryQuadraticModel.is_almost_equal compares self.vartype == other.vartype (a bound method for a
-        # view; the declared vartype of a variable-free BQM) where is_equal looks at the variables
-        feats = {"bqm_is_almost_equal_vartype_logic": True}
     ca, cb = c_obj(a, T, CT), c_obj(b, T, CT)
     cba = "None" if ba is None else f"(Some {cres(ba)})"
     calm = clist([cpair(cnat(p), cres(r)) for p, r in almost])
